@@ -5,6 +5,7 @@ import (
 	"go/ast"
 	"go/parser"
 	"go/token"
+	"go/types"
 	"os"
 	"path/filepath"
 	"regexp"
@@ -520,4 +521,94 @@ func runRules(meta *common.Meta, tier string, seed int64, outDir string) {
 	if len(meta.Samples) < 8 && len(dcs) > 0 {
 		meta.AddSample(map[string]interface{}{"checker": dcs[0].Tag.(tag).p.checker, "original": dcs[0].Orig, "suggestion": dcs[0].New})
 	}
+}
+
+// ---------------------------------------------------------------- newDeref: ZeroValueOf table vs the model
+
+var newDerefTypes = []string{"int", "float64", "string", "bool", "uint", "int32", "float32", "byte", "[]int", "map[string]int", "*int",
+	"st", "[2]int", "complex128", "myInt", "myStr", "interface{}", "(int)", "error", "[]st", "*st", "struct{}", "func()", "chan int", "uintptr"}
+
+func runNewDeref(meta *common.Meta, outDir string) {
+	var src strings.Builder
+	src.WriteString("package p\n" + exprgen.LintPreamble + "type myInt int\ntype myStr string\n")
+	for i, t := range newDerefTypes {
+		fmt.Fprintf(&src, "func d%d() interface{} { return *new(%s) }\n", i, t)
+	}
+	l, err := exprgen.Load("p.go", src.String())
+	if err != nil {
+		panic(err)
+	}
+	ws, err := l.Run("newDeref")
+	if err != nil {
+		panic(err)
+	}
+	msgs := map[string][]string{}
+	for _, w := range ws {
+		fn := l.FuncOf(w.Pos)
+		msgs[fn] = append(msgs[fn], w.Text)
+	}
+	var bodies, idx []string
+	for _, d := range l.File.Decls {
+		fd, ok := d.(*ast.FuncDecl)
+		if !ok || !strings.HasPrefix(fd.Name.Name, "d") || fd.Body == nil || len(fd.Body.List) != 1 {
+			continue
+		}
+		rs, ok := fd.Body.List[0].(*ast.ReturnStmt)
+		if !ok {
+			continue
+		}
+		star, ok := rs.Results[0].(*ast.StarExpr)
+		if !ok {
+			continue
+		}
+		arg := star.X.(*ast.CallExpr).Args[0]
+		typ := l.Info.TypeOf(arg)
+		inner := arg
+		for {
+			p, ok := inner.(*ast.ParenExpr)
+			if !ok {
+				break
+			}
+			inner = p.X
+		}
+		class, dflt := "ZOther", false
+		switch u := typ.Underlying().(type) {
+		case *types.Basic:
+			switch {
+			case u.Info()&types.IsInteger != 0:
+				class = "ZInt"
+			case u.Info()&types.IsFloat != 0:
+				class = "ZFloat"
+			case u.Info()&types.IsString != 0:
+				class = "ZString"
+			case u.Info()&types.IsBoolean != 0:
+				class = "ZBool"
+			default:
+				class = "ZOtherBasic"
+			}
+			if b, ok := typ.(*types.Basic); ok {
+				switch b.Kind() {
+				case types.Bool, types.Int, types.Float64, types.String:
+					dflt = true
+				}
+			}
+		case *types.Slice, *types.Map, *types.Pointer, *types.Interface:
+			class = "ZNilable"
+		case *types.Array, *types.Struct:
+			class = "ZComposite"
+		}
+		_, isStar := inner.(*ast.StarExpr)
+		bodies = append(bodies, fmt.Sprintf("((%s, %s, %v, %s, %v), %s)", coqfmt.Str(l.Text(arg)), coqfmt.Str(l.Text(inner)), isStar, class, dflt, coqfmt.StrList(msgs[fd.Name.Name])))
+		idx = append(idx, fmt.Sprintf("*new(%s) => %q", l.Text(arg), msgs[fd.Name.Name]))
+	}
+	common.WriteFile(filepath.Join(outDir, "cases_c10_newderef.v"),
+		"From GC Require Import Base Model_Expr Model_Rewrites.\n"+
+			"Definition case_ok (c : (string * string * bool * zclass * bool) * list string) : bool :=\n"+
+			"  let '((ctext, ttext, star, cl, d), obs) := c in list_eqb String.eqb (new_deref_msgs ctext ttext star cl d) obs.\n"+
+			"Definition cases : list ((string * string * bool * zclass * bool) * list string) := [\n"+strings.Join(bodies, ";\n")+"\n].\n"+
+			"Definition M := Eval vm_compute in mismatches case_ok cases.\nPrint M.\n")
+	common.WriteFile(filepath.Join(outDir, "cases_c10_newderef.index.txt"), strings.Join(idx, "\n")+"\n")
+	meta.CaseFiles = append(meta.CaseFiles, "cases_c10_newderef.v")
+	meta.Evaluations += len(bodies)
+	meta.Distribution["newderef_types_compared"] = len(bodies)
 }
